@@ -113,7 +113,7 @@ def base_specs(ctx, out):
 
 def tree_hash():
     h = hashlib.sha1()
-    for root in ("/repo/asyncfix", os.path.join(tlc.VERIF, "spec"), os.path.join(tlc.VERIF, "harness")):
+    for root in (__import__("harness").REPO + "/asyncfix", os.path.join(tlc.VERIF, "spec"), os.path.join(tlc.VERIF, "harness")):
         for dp, dn, fn in sorted(os.walk(root)):
             dn.sort()
             for f in sorted(fn):
